@@ -1292,12 +1292,12 @@ def check_c02(pid, tier, build, props):
                         "%d calls differ, first: %r%s"
                         % (lht["mismatch_count"], lht["mismatches"][:1],
                            (" harness: %r" % lht["harness_errors"][:1]) if lht["harness_errors"] else ""))
-    if lht.get("plain_rotations_not_meeting_them"):
+    if lht.get("plain_rotations_or_early_returns_not_meeting_them"):
         problems.append("the hypotheses of the universal path theorem for the loop rotation at any level "
                         "(LoopHierApplic.walk_pre_rot) do not hold - or the rotation the theorem speaks about is not "
-                        "the hierarchy the implementation produced - on %d of %d plain rotations the pipeline makes, "
-                        "first: %r" % (lht["plain_rotations_not_meeting_them"],
-                                       lht["plain_rotations_not_meeting_them"] + lht["plain_rotations_meeting_path_theorem_hypotheses"],
+                        "the hierarchy the implementation produced - on %d plain rotations / early returns the pipeline makes "
+                        "(%d meet them), first: %r" % (lht["plain_rotations_or_early_returns_not_meeting_them"],
+                                       lht["plain_rotations_meeting_path_theorem_hypotheses"] + lht["early_returns_meeting_path_theorem_hypotheses"],
                                        lht["plain_rotation_unmet_examples"][:1]))
     from . import extractcalls
     xt_ = extractcalls.tie(tier, common.seed())
